@@ -102,6 +102,9 @@ type Report struct {
 	CaseFiles          []string       `json:"case_files"`
 	Notes              []string       `json:"notes"`
 	Assumptions        []string       `json:"assumptions"`
+	// CorrIsSpec: the model the observations are compared with is the property's specification itself, so a
+	// disagreeing case is a concrete input on which the property fails (not merely a broken correspondence)
+	CorrIsSpec bool `json:"corr_is_spec"`
 
 	distinct map[uint64]struct{}
 }
